@@ -354,7 +354,9 @@ CHECKS["C20"] = {
     "pkg": "./app/eth2wrap",
     "parallel": 8,
     # (k, ops base-3 [0 request,1 reorg-invalidate,2 trim], eps bitmask [request i asks the later epoch], lens base-4 [number of indices of request i; 0 = all active])
-    "quick": _c20([(2, 0, 0, 5), (2, 0, 0, 9), (2, 0, 0, 6), (2, 0, 0, 4), (2, 0, 0, 1), (2, 0, 2, 5), (3, 3, 5, 17), (3, 6, 0, 17)]),
+    "quick": _c20([(2, 0, 0, 5), (2, 0, 0, 9), (2, 0, 0, 6), (2, 0, 0, 4), (2, 0, 0, 1), (2, 0, 2, 5), (3, 3, 5, 17), (3, 6, 0, 17)])
+             # request, reorg, request, a second reorg back to the same epoch, request (later epoch, one index each; one duty type per case)
+             + [{"harness": "VerifC20Cache", "params": {"k": 5, "ops": 30, "eps": 21, "lens": 273, "typ": [0, 1, 2], "mix": 0, "two": 0}, "prune": 1000, "timeout_ms": 300000}],
     "thorough": _c20([(2, 0, e, l) for e in (0, 1, 2, 3) for l in (0, 1, 2, 4, 5, 6, 8, 9, 10, 12, 13, 14)]
                      + [(3, 0, 0, l) for l in (21, 25, 37, 22, 41, 26)] + [(3, 3, e, 17) for e in (0, 1, 4, 5)] + [(3, 6, e, 17) for e in (0, 5)]
                      + [(3, 1, 6, 20), (3, 2, 6, 20), (4, 3 + 0 * 27, 13, 1 + 16 + 64)], case_timeout_s=6000),
